@@ -328,7 +328,7 @@ func installNatives(it *Interp) {
 	n["slices.Contains"] = func(it *Interp, args []Value) []Value {
 		if s, ok := args[0].(*SliceV); ok && s != nil {
 			for _, e := range s.elems {
-				if valuesEqual(e, args[1]) {
+				if it.elemEqual(e, args[1]) {
 					return []Value{true}
 				}
 			}
@@ -338,7 +338,7 @@ func installNatives(it *Interp) {
 	n["slices.Index"] = func(it *Interp, args []Value) []Value {
 		if s, ok := args[0].(*SliceV); ok && s != nil {
 			for i, e := range s.elems {
-				if valuesEqual(e, args[1]) {
+				if it.elemEqual(e, args[1]) {
 					return []Value{int64(i)}
 				}
 			}
@@ -408,7 +408,7 @@ func installNatives(it *Interp) {
 		}
 		out := &SliceV{elems: []Value{}}
 		for i, e := range s.elems {
-			if i == 0 || !valuesEqual(e, s.elems[i-1]) {
+			if i == 0 || !it.elemEqual(e, s.elems[i-1]) {
 				out.elems = append(out.elems, e)
 			}
 		}
@@ -1660,8 +1660,30 @@ func (m *model) tmplConfigFromTree(t *Obj, boolVars []string) (tmplConfig, error
 		}
 	}
 	if s, ok := t.field("Imports").v.(*SliceV); ok && s != nil {
+		plain := true
 		for _, e := range s.elems {
-			cfg.Imports = append(cfg.Imports, e.(string))
+			str, ok := e.(string)
+			if !ok {
+				plain = false
+				break
+			}
+			cfg.Imports = append(cfg.Imports, str)
+		}
+		if !plain {
+			// imports kept as values of a type of their own: what the registered formatImport prints for each
+			// (its agreement with path and alias is C10's R-import-alias), put back into the path=alias form
+			specs, err := printedImports(theRepo, m.it, t)
+			if err != nil {
+				return cfg, fmt.Errorf("Tree.Imports: %v", err)
+			}
+			cfg.Imports = nil
+			for _, sp := range specs {
+				if sp[0] != "" {
+					cfg.Imports = append(cfg.Imports, sp[1]+"="+sp[0])
+				} else {
+					cfg.Imports = append(cfg.Imports, sp[1])
+				}
+			}
 		}
 	}
 	return cfg, nil
